@@ -260,6 +260,87 @@ func scenarioRoute() int {
 		run.Observe("distinct_udp_next_hops_of_one_listener", len(dsts))
 		run.Observe("requests_relayed_to_them", manyRelayed)
 	}
+	// precedence does not depend on dialog state: a call is set up through the proxy (INVITE to a
+	// backend, answered by it with both tags), then the callee's side sends a request of that
+	// dialog whose To host has a static route - rule 2 still comes before rule 3
+	inDialogStatic := 0
+	if prop == "C03" && run.Violations() <= 10 {
+		for round := 0; round < ev.Pick(12, 120) && run.Violations() <= 10; round++ {
+			svc := -1
+			for k := 0; k < len(w.Svcs); k++ {
+				if s := (round + k) % len(w.Svcs); !w.Svcs[s].HasDef && len(w.Svcs[s].BeUDP) > 0 {
+					svc = s
+					break
+				}
+			}
+			if svc < 0 {
+				break
+			}
+			sv := w.Svcs[svc]
+			p := wire.Path{UA: round % len(w.UAs), Svc: svc, Proto: []string{"udp", "tcp"}[round%2]}
+			ua := w.UAs[p.UA]
+			id := fmt.Sprintf("ds%d", round)
+			aTag, bTag := "a"+g.Alnum(4, 8), "b"+g.Alnum(4, 8)
+			inv := wire.StdRequest(id, "INVITE", fmt.Sprintf("sip:svc%d.verif.test", svc), p.Proto, ua.IP, wire.UDPPort)
+			wire.SetHeader(inv, "From", "<sip:alice@exact.verif.test>;tag="+aTag)
+			wire.SetHeader(inv, "To", "<sip:bob@nomatch.example>")
+			if w.Send(p, inv.Bytes(), id) != nil {
+				continue
+			}
+			obs, seen := w.Net.WaitCase(id, func(o []*wire.Obs) bool { return len(o) >= 1 }, w.BarrierWait)
+			if !seen || !sv.BackendEndpointNames()[obs[0].Ep] || obs[0].Msg == nil || obs[0].Proto != "udp" {
+				w.Barrier(p)
+				continue // rotated onto the TCP backend, or not relayed (judged elsewhere)
+			}
+			rid := id + "x200"
+			resp := &sip.Msg{Start: "SIP/2.0 200 OK"}
+			for _, h := range obs[0].Msg.Headers {
+				switch sip.Canon(h.Name) {
+				case "via", "from", "call-id", "cseq":
+					resp.Headers = append(resp.Headers, h)
+				case "to":
+					resp.Headers = append(resp.Headers, sip.Header{Name: h.Name, Value: h.Value + ";tag=" + bTag})
+				}
+			}
+			resp.Headers = append(resp.Headers, sip.Header{Name: "X-Vf", Value: rid}, sip.Header{Name: "Content-Length", Value: "0"})
+			for _, e := range sv.BeUDP {
+				if e.Name == obs[0].Ep {
+					e.Send(fmt.Sprintf("%s:%d", sv.IP, sv.UDP), resp.Bytes(), rid)
+				}
+			}
+			if _, ok := w.Net.WaitCase(rid, func(o []*wire.Obs) bool { return len(o) >= 1 }, w.BarrierWait); !ok {
+				continue
+			}
+			// the callee's side: From / To swapped, To host exact.verif.test has a static route
+			for k, method := range []string{"INFO", "BYE"} {
+				qid := fmt.Sprintf("%sq%d", id, k)
+				q := wire.StdRequest(qid, method, fmt.Sprintf("sip:svc%d.verif.test", svc), p.Proto, ua.IP, wire.UDPPort)
+				wire.SetHeader(q, "From", "<sip:bob@nomatch.example>;tag="+bTag)
+				wire.SetHeader(q, "To", "<sip:alice@exact.verif.test>;tag="+aTag)
+				wire.SetHeader(q, "Call-ID", id+"@vf")
+				if w.Send(p, q.Bytes(), qid) != nil {
+					break
+				}
+				w.Net.WaitCase(qid, func(o []*wire.Obs) bool { return len(o) >= 1 }, w.BarrierWait)
+				if !w.Barrier(p) {
+					break
+				}
+				qo := w.Net.ForCase(qid)
+				want := fmt.Sprintf("%s:%d", w.Hops[0].IP, wire.NextHopPortA)
+				var at []string
+				for _, o := range qo {
+					at = append(at, fmt.Sprintf("%s %s", o.Ep, o.Local))
+				}
+				if len(qo) != 1 || qo[0].Proto != "udp" || qo[0].Local != want {
+					run.Violation("a request of an established dialog whose To host has a static route did not go to that route's next hop", map[string]any{"service": svc, "ingress": p.Proto, "request": string(q.Bytes()), "static_route_next_hop": "udp " + want, "observed_at": at, "dialog": "INVITE relayed to " + obs[0].Ep + " and answered 200 with both tags from there"})
+					break
+				}
+				inDialogStatic++
+				run.Eval("in-dialog-request-with-static-route|" + method + "|" + p.Proto)
+			}
+		}
+		run.Observe("requests_of_established_dialogs_routed_by_a_static_route", inDialogStatic)
+	}
 	// late arrivals: anything that turned up after its case had been judged
 	w.Net.Drain()
 	for _, c := range cases {
